@@ -1,5 +1,5 @@
 import Driver.Util
-import SaModel.Build.Builder
+import SaModel.Build.Push
 import SaModel.Codec.SchemaJson
 /-
 suite `overflow` (thorough): n unit elements in one List<Null> row, n at / beyond i32::MAX.
@@ -45,7 +45,66 @@ def handleDeepTerm (j : Json) : Except String Verdict := do
            sig := if expected == cls then "" else s!"overflow/deep-term/model={expected}/impl={cls}",
            why := s!"data_type nested {n} levels: model {expected}, implementation {cls}" }
 
+/-- `union_rows`: `n` rows of one unit variant into a dense `Union<Null, Null>` column.  Row `i` (0-based) of a variant
+meets the counter `current_offset[variant] = i`; the model's answer is `Build.serializeVariant` on that state (theorems
+C16.union_rows_capacity_is_error / union_row_ok_below_capacity): accepted iff `i + 1 ≤ i32::MAX`, beyond it an ERROR
+annotated by the union builder — never a panic (the pinned `+= 1` with overflow checks), never a wrapped offset. -/
+def handleUnionRows (j : Json) : Except String Verdict := do
+  let n ← getNat j "n"
+  let v ← getNat j "variant"
+  let impl ← getObj j "impl"
+  let cls := implCls impl
+  let lim : Nat := 2147483647
+  let kids : BL := .cons (.null "$.a.A" 0) { name := "A", nullable := true } (.cons (.null "$.a.B" 0) { name := "B", nullable := true } .nil)
+  let rowCls (i : Nat) : String := (serializeVariant kids [] [] (([0, 0] : List Int).set v (i : Int)) v).cls
+  -- the model at the boundary and at the last row of this case
+  let modelFirstErr : Option Nat :=
+    if rowCls (lim - 1) == "ok" && rowCls lim == "err" then (if n > lim then some lim else none) else some 0
+  let lastOk := n == 0 || rowCls (min n lim - 1) == "ok"
+  let ok? := (impl.getObjVal? "ok").toOption
+  let got : Option Nat := ok?.bind fun o => (o.getObjValAs? Nat "first_err").toOption
+  let rows : Option Nat := ok?.bind fun o => (o.getObjValAs? Nat "rows").toOption
+  let lastOff : Option Int := ok?.bind fun o => (o.getObjValAs? Int "last_offset").toOption
+  -- the refusal is annotated by the union builder
+  let annOk : Bool := match got with
+    | none => true
+    | some _ =>
+      match ok?.bind (fun o => (o.getObjVal? "err").toOption) with
+      | some e => ((toString e).splitOn "Union(..)").length > 1 && ((toString e).splitOn "$.a").length > 1
+      | none => false
+  -- accepted rows: all of them present, the last offset is the last row's index in its child
+  let arrOk : Bool := match got with
+    | some _ => true
+    | none => rows == some n && (n == 0 || lastOff == some ((n : Int) - 1))
+  let c16 := if cls == "panic" || cls == "hang" then "fail" else "pass"
+  let good := cls == "ok" && lastOk && got == modelFirstErr && annOk && arrOk
+  let c05 := if cls == "ok" && (got != modelFirstErr || !arrOk) then "fail" else "pass"
+  return { agree := good, spec := [("C05", c05), ("C16", c16)],
+           tags := [s!"union-rows:n{if n > lim then ">" else "≤"}i32max", s!"impl:{cls}"],
+           sig := if good then "" else if cls == "panic" then "C16/panic/union-current-offset/union_rows"
+                  else s!"overflow/union-rows/first-err={got}/expected={modelFirstErr}/ann={annOk}/arr={arrOk}",
+           why := s!"n = {n} rows of variant {v}: first refused row {got}, model {modelFirstErr} ({cls})" }
+
+/-- `len_hint`: a `Serialize` impl that announces `n` elements and sends none, handed to `SerdeArrowSchema::from_value`
+(repo fix 4c15f66: utils/value.rs preallocated `n` elements — "capacity overflow" panic for usize::MAX, allocation abort
+for 2^40).  A length announcement is not data (the serde value model `SVal` of the models has none), so the specification
+is: the outcome equals the outcome of the honest announcement, recorded in the same case. -/
+def handleLenHint (j : Json) : Except String Verdict := do
+  let n ← getNat j "n"
+  let shape ← getStr j "shape"
+  let impl ← getObj j "impl"
+  let honest ← getObj j "honest"
+  let cls := implCls impl
+  let same := toString impl == toString honest
+  let c16 := if cls == "panic" || cls == "hang" then "fail" else "pass"
+  return { agree := same, spec := [("C05", "na"), ("C16", c16)],
+           tags := [s!"len-hint:{shape}:{if n > 1024 then "huge" else "small"}", s!"impl:{cls}"],
+           sig := if same then "" else if cls == "panic" then s!"C16/panic/len-hint-prealloc/{shape}" else s!"overflow/len-hint/{shape}/impl={cls}/honest={implCls honest}",
+           why := s!"{shape} announcing {n} elements and sending none: {cls}, honest announcement {implCls honest}" }
+
 def handle (j : Json) : Except String Verdict := do
+  if (getStr j "kind").toOption == some "len_hint" then return ← handleLenHint j
+  if (getStr j "kind").toOption == some "union_rows" then return ← handleUnionRows j
   if (getStr j "kind").toOption == some "view_bytes" then return ← handleViewBytes j
   if (getStr j "kind").toOption == some "deep_term" then return ← handleDeepTerm j
   let n ← getNat j "n"
